@@ -1614,7 +1614,18 @@ def trace(case, judge=True):
                 # correctContourDirection): 'once between two changes' is judged up to its start only
                 im.check_runs(_site(op))
                 im.interval = {}
-            r = im.do(op)
+            try:
+                r = im.do(op)
+            except Exception as e:
+                # defcon raised where the adaptor expects no error (never on the unchanged tree): reported, with the
+                # history as replay; nothing after it is executed (both streams are padded alike)
+                im.viol.append(dict(clause="C03/unexpected-exception",
+                                    signature="C03/unexpected-exception/%s/%s" % (type(e).__name__, _site(op)),
+                                    step=im.step, op=im.opname, error=repr(e)[:300]))
+                for _ in case["ops"][i:]:
+                    im.lines.append([Atom("skip")])
+                    im.outs.append(Atom("skip"))
+                break
             if composite:
                 im.interval = {}
             if r is None:
